@@ -23,6 +23,12 @@
     than `lo ≤ hi` when a bound is NaN. `arith_ok_le` turns it into `lo ≤ hi` for finite bounds, and
     `ok_never_nan` shows on `XR` that the bounds are never NaN when `crit` is finite. If the external
     routine answered NaN the crate would return `Ok([NaN, NaN])`: `nan_crit_gives_ok_nan`.
+  * `ci_wilson` clamps its bounds (`(mean − span).max(0.)`, `(mean + span).min(1.)`) before
+    `Interval::new`. `wilson_clamped` states the clamped shape on every carrier; on `XR` and on
+    rounded reals the clamp makes every `Ok` a finite interval inside `[0, 1]` with `lo ≤ hi`, for
+    *any* critical value (`wilson_ok_unit_XR`, `wilson_ok_unit_RR`); a NaN critical value gives
+    `Ok([0, 1])` (`wilson_nan_crit_XR`); `InvalidBounds` survives only as a genuine `low > high`
+    between non-NaN numbers (`wilson_invalidBounds_XR`), e.g. for a negative critical value.
   * `Unpaired::ci_mean` hands real-valued effective degrees of freedom to `t_value`, which panics on
     `dof ≤ 0`. On `XR` this cannot happen (`unpaired_total_XR`: the value is NaN/+∞ — z branch — or
     positive). At exact reals (`Rex`, where `0/0 = 0`) it can only happen for two constant samples,
@@ -281,7 +287,8 @@ section proportion
 variable {W : Type} [Scalar W]
 
 /-- `ci_wilson` (= `proportion::ci`, `Stats::ci`, `ci_true`, `ci_if`): the error classes by the guards,
-    in the crate's order; past the guards the `Interval::new` of the Wilson numbers; never a panic -/
+    in the crate's order; past the guards the `Interval::new` of the Wilson numbers clamped into
+    `[0, 1]` (`wilson_clamped`); never a panic -/
 theorem wilson_total (crit : Crit W) (conf : Confidence W) (hq : probOk conf.quantile = true)
     (n k : Nat) :
     (n < k → Proportion.ciWilson crit conf n k = .err (.invalidSuccesses k n)) ∧
@@ -310,6 +317,29 @@ theorem wilson_outcomes (crit : Crit W) (conf : Confidence W) (n k : Nat) :
     fun i h => ?_⟩
   obtain ⟨h1, h2, h3, _, h4⟩ := Proportion.ciWilson_eq_ok h
   exact ⟨h1, h2, h3, h4⟩
+
+/-- what `ci_wilson` builds past its guards, on every carrier: with `c`, `s` the Wilson centre and
+    span at the one critical value the oracle supplies, `low = (c − s).max(0.)` and
+    `high = (c + s).min(1.)` (`fmax` / `fmin`: `f64::max` / `f64::min`, a NaN argument gives the other
+    one), an `Ok` is `[low, high]`, `[low, 1]` or `[0, high]` by the kind of the confidence, with
+    `¬ lo > hi`; and the `InvalidBounds` error means exactly `lo > hi` for that same pair -/
+theorem wilson_clamped (crit : Crit W) (conf : Confidence W) (n k : Nat) :
+    let c := Proportion.wilsonCentre (Scalar.ofNat n) (Scalar.ofNat k) (crit (.z conf.quantile))
+    let s := Proportion.wilsonSpan (Scalar.ofNat n) (Scalar.ofNat k) (crit (.z conf.quantile))
+    (∀ i, Proportion.ciWilson crit conf n k = .ok i →
+      ∃ lo hi, i = .twoSided lo hi ∧ gt lo hi = false ∧
+        (conf.kind = .twoSided → lo = fmax (sub c s) zero ∧ hi = fmin (add c s) one) ∧
+        (conf.kind = .upper → lo = fmax (sub c s) zero ∧ hi = one) ∧
+        (conf.kind = .lower → lo = zero ∧ hi = fmin (add c s) one)) ∧
+    (Proportion.ciWilson crit conf n k = .err (.interval .invalidBounds) →
+      ∃ lo hi : W, gt lo hi = true ∧
+        (conf.kind = .twoSided → lo = fmax (sub c s) zero ∧ hi = fmin (add c s) one) ∧
+        (conf.kind = .upper → lo = fmax (sub c s) zero ∧ hi = one) ∧
+        (conf.kind = .lower → lo = zero ∧ hi = fmin (add c s) one)) := by
+  intro c s
+  refine ⟨fun i h => ?_, fun h => ?_⟩
+  · exact Proportion.finishWilson_eq_ok (Proportion.ciWilson_eq_ok' h).2.2.2.2
+  · exact (Proportion.ciWilson_eq_invalidBounds h).2.2.2.2
 
 /-- the wrappers are `ci_wilson` -/
 theorem wilson_wrappers (crit : Crit W) (conf : Confidence W) (n k : Nat) (s : Proportion.Stats)
@@ -516,7 +546,8 @@ theorem invalid_successes {W : Type} [Scalar W] (crit : Crit W) (conf : Confiden
     proportion intervals all bounds are in fact finite and `lo ≤ hi` (`XR.FinIv`); for the harmonic
     mean a bound can be `+∞` (a reciprocal-space bound that is not strictly positive is read as
     `+∞`) but not NaN — and never zero or negative: `harmonic_bounds_positive_XR`; for `quantile::ci`
-    the bounds are data elements and the sort has rejected NaN. -/
+    the bounds are data elements and the sort has rejected NaN. For `ci_wilson` / `ci_wilson_ratio`
+    the hypothesis on `crit` is not even needed, and the bounds lie in `[0, 1]`: `wilson_ok_unit_XR`. -/
 theorem ok_never_nan (crit : Crit XR) (conf : Confidence XR)
     (hc : ∀ r, isFinite (crit r) = true) (i : Interval XR) :
     (∀ a : Arith XR, Arith.ciMean crit a conf = .ok i → XR.FinIv i) ∧
@@ -538,9 +569,9 @@ theorem ok_never_nan (crit : Crit XR) (conf : Confidence XR)
     fun u h => XR.unpaired_ciMean_ok_finIv crit u conf hc h,
     fun g h => XR.geometric_ciMean_ok_finIv crit g conf hc h, fun xs h => ?_,
     fun g h => XR.harmonic_ciMean_ok_noNaN crit g conf hc h, fun xs h => ?_,
-    fun n k h => XR.ciWilson_ok_finIv crit conf n k hc h,
+    fun n k h => XR.ciWilson_ok_finIv crit conf n k h,
     fun n k h => XR.ciZNormal_ok_finIv crit conf n k hc h,
-    fun n rate h => XR.ciWilsonRatio_ok_finIv crit conf n rate hc h,
+    fun n rate h => XR.ciWilsonRatio_ok_finIv crit conf n rate h,
     fun xs q h => XR.quantile_ci_ok_noNaN crit conf xs q h, fun cap xs q h => ?_⟩
   · by_cases hl : as.length = bs.length
     · rw [Paired.ci_of_length_eq crit conf hl] at h
@@ -604,6 +635,87 @@ example : ∃ a : Arith XR, 2 ≤ a.count ∧ isFinite a.mean = true ∧ isFinit
   · have h3 : ¬ ((5 : ℝ) < 3 / 2 * 3) := by norm_num
     have h4 : (0 : ℝ) ≤ 5 - 3 / 2 * 3 := by norm_num
     simp [Arith.stdDev, Arith.variance, Arith.mean, Kahan.value, h3, XR.sqrt_fin_of_nonneg h4]
+
+/-! ### the clamp of `ci_wilson`: every `Ok` lies inside `[0, 1]` -/
+
+/-- On `XR`, for *every* critical-value oracle — finite, infinite or NaN answers alike — every `Ok`
+    of `ci_wilson`, of its wrappers (`proportion::ci`, `Stats::ci`, `ci_true`, `ci_if`) and of
+    `ci_wilson_ratio` is a two-sided interval whose bounds are finite numbers (so never NaN) with
+    `0 ≤ lo ≤ hi ≤ 1`. (`low = x.max(0.)` is `+∞` or finite `≥ 0` whatever `x` is, `high = y.min(1.)`
+    is `−∞` or finite `≤ 1`, and `Interval::new` rejects `low > high`.) -/
+theorem wilson_ok_unit_XR (crit : Crit XR) (conf : Confidence XR) (i : Interval XR) :
+    (∀ n k : Nat, Proportion.ciWilson crit conf n k = .ok i →
+      ∃ a b : ℝ, i = .twoSided (.fin a) (.fin b) ∧ 0 ≤ a ∧ a ≤ b ∧ b ≤ 1) ∧
+    (∀ n k : Nat, Proportion.ci crit conf n k = .ok i →
+      ∃ a b : ℝ, i = .twoSided (.fin a) (.fin b) ∧ 0 ≤ a ∧ a ≤ b ∧ b ≤ 1) ∧
+    (∀ st : Proportion.Stats, st.ci crit conf = .ok i →
+      ∃ a b : ℝ, i = .twoSided (.fin a) (.fin b) ∧ 0 ≤ a ∧ a ≤ b ∧ b ≤ 1) ∧
+    (∀ bs : List Bool, Proportion.ciTrue crit conf bs = .ok i →
+      ∃ a b : ℝ, i = .twoSided (.fin a) (.fin b) ∧ 0 ≤ a ∧ a ≤ b ∧ b ≤ 1) ∧
+    (∀ (T : Type) (xs : List T) (p : T → Bool), Proportion.ciIf crit conf xs p = .ok i →
+      ∃ a b : ℝ, i = .twoSided (.fin a) (.fin b) ∧ 0 ≤ a ∧ a ≤ b ∧ b ≤ 1) ∧
+    (∀ (n : Nat) (rate : XR), Proportion.ciWilsonRatio crit conf n rate = .ok i →
+      ∃ a b : ℝ, i = .twoSided (.fin a) (.fin b) ∧ 0 ≤ a ∧ a ≤ b ∧ b ≤ 1) := by
+  have key : XR.UnitIv i → ∃ a b : ℝ, i = .twoSided (.fin a) (.fin b) ∧ 0 ≤ a ∧ a ≤ b ∧ b ≤ 1 := by
+    intro h
+    cases i <;> simp only [XR.UnitIv] at h
+    obtain ⟨a, b, rfl, rfl, h⟩ := h
+    exact ⟨a, b, rfl, h⟩
+  exact ⟨fun n k h => key (XR.ciWilson_ok_unitIv crit conf n k h),
+    fun n k h => key (XR.ciWilson_ok_unitIv crit conf n k h),
+    fun st h => key (XR.ciWilson_ok_unitIv crit conf _ _ h),
+    fun bs h => key (XR.ciWilson_ok_unitIv crit conf _ _ h),
+    fun T xs p h => key (XR.ciWilson_ok_unitIv crit conf _ _ h),
+    fun n rate h => key (XR.ciWilsonRatio_ok_unitIv crit conf n rate h)⟩
+
+/-- the premise is satisfiable with a finite critical value (five successes in ten, `z = 0`:
+    `Ok([1/2, 1/2])`) and with a NaN one (`Ok([0, 1])`) -/
+example :
+    Proportion.ciWilson (fun _ => XR.fin 0) (.twoSided (XR.fin 0.95)) 10 5 =
+      .ok (.twoSided (XR.fin (1/2)) (XR.fin (1/2))) ∧
+    Proportion.ciWilson (fun _ => XR.nan) (.twoSided (XR.fin 0.95)) 10 5 =
+      .ok (.twoSided (XR.fin 0) (XR.fin 1)) :=
+  ⟨Examples.wilson_ok_XR, Examples.wilson_nan_crit_ok⟩
+
+/-- In contrast to `nan_crit_gives_ok_nan`: were `inverse_cdf` to answer NaN, `ci_wilson` past its
+    guards returns `Ok([0, 1])` — the trivial but valid proportion interval — for every kind of
+    confidence (both Wilson numbers are NaN; `NaN.max(0.) = 0`, `NaN.min(1.) = 1`). -/
+theorem wilson_nan_crit_XR (conf : Confidence XR) (n k : Nat) (h1 : k ≤ n) (h2 : 2 ≤ k)
+    (h3 : 2 ≤ n - k) (hq : probOk conf.quantile = true) :
+    Proportion.ciWilson (fun _ => XR.nan) conf n k = .ok (.twoSided (XR.fin 0) (XR.fin 1)) :=
+  XR.ciWilson_nan_crit conf h1 h2 h3 hq
+
+example : (5 : Nat) ≤ 10 ∧ 2 ≤ 5 ∧ 2 ≤ 10 - 5 ∧
+    probOk (Confidence.twoSided (XR.fin 0.95)).quantile = true :=
+  ⟨by norm_num, by norm_num, by norm_num, Examples.conf95_probOk_XR⟩
+
+/-- On `XR` the `InvalidBounds` error of `ci_wilson` is never an artefact of a NaN: it is a genuine
+    `low > high` between two numbers that are not NaN, with `0 ≤ low` and `high ≤ 1` as IEEE
+    comparisons (`low` may be `+∞`, `high` may be `−∞`). -/
+theorem wilson_invalidBounds_XR (crit : Crit XR) (conf : Confidence XR) (n k : Nat)
+    (h : Proportion.ciWilson crit conf n k = .err (.interval .invalidBounds)) :
+    ∃ lo hi : XR, lt hi lo = true ∧ lo ≠ .nan ∧ hi ≠ .nan ∧
+      le (XR.fin 0) lo = true ∧ le hi (XR.fin 1) = true :=
+  XR.ciWilson_invalidBounds_XR crit conf n k h
+
+/-- the premise is satisfiable: a negative critical value (`z = −1`, five successes in ten) makes the
+    span negative, `low = centre + |span| > centre − |span| = high` -/
+example : Proportion.ciWilson (fun _ => XR.fin (-1)) (.twoSided (XR.fin 0.95)) 10 5 =
+    .err (.interval .invalidBounds) := Examples.wilson_invalidBounds_XR
+
+/-- The same on the reals with an arbitrary rounding function `fl` applied after every arithmetic
+    operation (`max`/`min` themselves do not round) and an arbitrary critical-value oracle: every
+    `Ok` of `ci_wilson` is two-sided with `0 ≤ lo ≤ hi ≤ 1` — rounding error in the Wilson numbers
+    cannot push a bound outside `[0, 1]`. -/
+theorem wilson_ok_unit_RR (fl : ℝ → ℝ) (crit : Crit (RR fl)) (conf : Confidence (RR fl)) (n k : Nat)
+    (i : Interval (RR fl)) (h : Proportion.ciWilson crit conf n k = .ok i) :
+    ∃ lo hi : RR fl, i = .twoSided lo hi ∧ 0 ≤ lo.val ∧ lo.val ≤ hi.val ∧ hi.val ≤ 1 :=
+  Proportion.ciWilson_ok_unit_RR crit conf n k h
+
+/-- the premise is satisfiable (exact arithmetic, five successes in ten, `z = 0`) -/
+example : ∃ i : Interval Rex,
+    Proportion.ciWilson (constCrit 0 : Crit Rex) (.twoSided (inj 0.95)) 10 5 = .ok i :=
+  Examples.wilson_ok_Rex
 
 /-- `ci_sorted_unchecked` is unchecked: a slice of NaNs comes back as an `Ok` with NaN bounds
     whenever the index computation succeeds -/
